@@ -254,17 +254,18 @@ func mustMarshal(m *pb.Data) []byte {
 // handFileOpts selects which optional size information a hand-made file
 // carries.
 type handFileOpts struct {
-	Width          int
-	PBLeaves       bool // leaves are dag-pb File nodes with inline data (else raw)
-	NoBlockSize    bool // interior nodes omit blocksizes
-	NoFileSize     bool // interior nodes omit filesize
-	V0             bool
-	LeafType       pb.Data_DataType
-	InteriorRaw    bool // interior nodes carry UnixFS type Raw instead of File (legal: read as files)
-	EmptyData      bool // interior nodes carry a Data field of length zero
-	ExtraBlockSize bool // interior nodes declare one block size (0) more than they have links
-	HighMode       bool // interior nodes carry a mode with bit 31 set (a legal 32-bit value)
-	PBTsize        int  // Tsize on links to dag-pb children: 0 cumulative, 1 zero, 2 absent, 3 one (Tsize is advisory there)
+	Width           int
+	PBLeaves        bool // leaves are dag-pb File nodes with inline data (else raw)
+	NoBlockSize     bool // interior nodes omit blocksizes
+	NoFileSize      bool // interior nodes omit filesize
+	V0              bool
+	LeafType        pb.Data_DataType
+	InteriorRaw     bool // interior nodes carry UnixFS type Raw instead of File (legal: read as files)
+	EmptyData       bool // interior nodes carry a Data field of length zero
+	ExtraBlockSize  bool // interior nodes declare one block size (0) more than they have links
+	FewerBlockSizes bool // interior nodes record the size of their first child only
+	HighMode        bool // interior nodes carry a mode with bit 31 set (a legal 32-bit value)
+	PBTsize         int  // Tsize on links to dag-pb children: 0 cumulative, 1 zero, 2 absent, 3 one (Tsize is advisory there)
 }
 
 // handFile builds a balanced file DAG over chunks by hand.
@@ -342,6 +343,9 @@ func handFile(st *store.Store, chunks [][]byte, o handFileOpts) (cid.Cid, uint64
 			if o.ExtraBlockSize && !o.NoBlockSize {
 				m.Blocksizes = append(m.Blocksizes, 0)
 			}
+			if o.FewerBlockSizes && len(m.Blocksizes) > 1 {
+				m.Blocksizes = m.Blocksizes[:1]
+			}
 			blk := encodePB(mustMarshal(m), true, links)
 			c := st.PutBlock(ver, cid.DagProtobuf, blk)
 			next = append(next, nd{c, total, ts + uint64(len(blk))})
@@ -411,6 +415,9 @@ func handName(o handFileOpts) string {
 	}
 	if o.ExtraBlockSize {
 		s += "-extrablocksize"
+	}
+	if o.FewerBlockSizes {
+		s += "-fewerblocksizes"
 	}
 	if o.PBTsize != 0 {
 		s += []string{"", "-tsize0", "-tsizeabsent", "-tsize1"}[o.PBTsize]
